@@ -2980,6 +2980,19 @@ func (dsc *dataStoreCommand) setRemove(keyName string, members []string) (output
 	return
 }
 
+// number of keys in the database that have not expired (DBSIZE)
+func (dsc *dataStoreCommand) liveKeyCount() (n int) {
+	dsc.lock()
+	defer dsc.unlock()
+
+	for i := dsc.ds.data.createIterator(); i.next(); {
+		if sk, isSk := i.value.(*storeKey); isSk && !sk.isExpiredUnlocked() {
+			n++
+		}
+	}
+	return
+}
+
 func (dsc *dataStoreCommand) save(l lane.Lane, path string) (err error) {
 	dsc.lock()
 	defer dsc.unlock()
